@@ -90,3 +90,31 @@ Theorem no_switch_runs_handler : forall debug a toks path f x,
   sm_action (run_summary debug a toks) = AHandler path.
 Proof. exact handler_runs_lemma. Qed.
 Print Assumptions no_switch_runs_handler.
+
+(* ---- second tie (translator): the hand model of the switches EQUALS what harness/translate_switches.py regenerates from
+   DefaultApplicationConfig.create_io / resolve_help_command / print_version on every bin/setup (Generated/GenSwitches.v):
+   verbosity, quiet and interactive of the IO that create_io builds, which of its two outputs decorate, the guard of the
+   help listener and the guard of the version listener - for every set of option tokens, debug flag and stream. *)
+From Clikit Require Generated.GenSwitches Proofs.GenSwitchEquivLemmas.
+Theorem settings_match_source : forall debug ots out_ansi err_ansi,
+  let g := GenSwitches.create_io (fun t => has_token t ots) debug out_ansi err_ansi in
+  let s := io_settings debug ots in
+  GenSwitches.g_verbosity g = s_verbosity s /\ GenSwitches.g_quiet g = s_quiet s /\
+  GenSwitches.g_interactive g = s_interactive s /\
+  GenSwitchEquivLemmas.decorates (GenSwitches.g_out g) out_ansi = decorated s out_ansi /\
+  GenSwitchEquivLemmas.decorates (GenSwitches.g_err g) err_ansi = decorated s err_ansi.
+Proof. exact GenSwitchEquivLemmas.gen_create_io. Qed.
+Print Assumptions settings_match_source.
+Theorem help_guard_matches_source : forall ots,
+  GenSwitches.help_listener_fires (fun t => has_token t ots) = wants_help ots.
+Proof. exact GenSwitchEquivLemmas.gen_help_listener. Qed.
+Print Assumptions help_guard_matches_source.
+Theorem version_guard_matches_source : forall ots version_set,
+  GenSwitches.version_listener_fires (fun t => has_token t ots) version_set true = version_set || wants_version ots.
+Proof. exact GenSwitchEquivLemmas.gen_version_listener. Qed.
+Print Assumptions version_guard_matches_source.
+Theorem option_tokens_match_source : forall toks t,
+  GenSwitches.option_tokens str_eqb toks = option_tokens toks /\
+  GenSwitches.has_option_token str_eqb toks t = has_token t (option_tokens toks).
+Proof. intros toks t. split; [apply GenSwitchEquivLemmas.gen_option_tokens|apply GenSwitchEquivLemmas.gen_has_option_token]. Qed.
+Print Assumptions option_tokens_match_source.
